@@ -23,6 +23,7 @@ const (
 var gangPartition = []string{"PendingChildren", "WaitingForBindChildren", "BoundChildren"}
 
 func c04(c *Ctx) {
+	c04statusMap(c)
 	r := c.R
 	r.Decides("every insertion of a member into one of the pending/waiting/bound sets is paired, in the same critical section, with its removal from (or a dominating absence test in) each other set")
 	r.Decides("Permit returns Success only if no gang of the group was missing or invalid for permit; the validity test is made on each gang of the group, not only on the pod's own gang")
